@@ -46,6 +46,8 @@ def gen(rng, tier):
         for k in range(1, 7):
             for w in itertools.product("a(v{", repeat=k):
                 ws.append("".join(w) * rng.choice([1, 5, 8, 11, 16]))
+    for wv in G.wide_values():
+        yield G.case_ser("--", False, 0, "dyn", wv, cmd="rt")
     for w in ws:
         if not w:
             continue
